@@ -519,3 +519,27 @@ package sipsp
 //@     decreases len(hdrs) - i
 //@   ensures[C12,*] "kept": sameSlice(hl.Hdrs, hl_old.Hdrs)
 //@   ensures[C12,*] "all-zero": hl.PFlags == 0 && hl.N == 0 && hl.hdr == Hdr{} && forall(k, 0, 13, hl.h[k] == Hdr{}) && forall(k, 0, len(hl.Hdrs), hdrZero(&hl.Hdrs[k]))
+
+// ---- URI parser (C14; port number for C10) ----
+
+//@ func ParseURI(uri, puri) (err, n)
+//@   requires bufOK(uri) && puri != nil && *puri == PsipURI{}
+//@   modifies *puri
+//@   loop 0 "for ; i < len(uri); i++"
+//@     invariant offs <= i && i <= len(uri)
+//@     invariant[C14,*] uriInv(uri, puri, state, offs, s, i, foundUser, passOffs, portNo)
+//@     invariant[C10,*] portExact(uri, puri)
+//@     decreases len(uri) - i
+//@     cases int(state) 1 17
+//@     split i < len(uri) && uri[i] == '@'
+//@   ensures 0 <= n && n <= len(uri)
+//@   ensures[C14] "consumed-all": err == 0 ==> n == len(uri) && schemeOK(uri, puri, int(puri.Scheme.Len))
+//@   ensures[C14] "user-part": err == 0 && puri.URIType != TELuri ==> upOK(uri, puri, int(puri.Scheme.Len))
+//@   ensures[C14] "host-to-end": err == 0 && puri.URIType != TELuri ==> tailOK(uri, puri, puri.Host, upEnd(puri, int(puri.Scheme.Len)), n)
+//@   ensures[C14] "brackets": err == 0 && puri.URIType != TELuri ==> brOK(uri, puri.Host)
+//@   ensures[C14] "at-belongs-to-user": err == 0 && puri.URIType != TELuri ==> noAt(uri, max2(int(puri.Host.Offs), int(puri.Scheme.Len)+1), n)
+//@   ensures[C14] "tel": err == 0 && puri.URIType == TELuri ==> pfZero(puri.Host) && int(puri.User.Offs) >= int(puri.Scheme.Len) &&
+//@                 (int(puri.User.Offs) == int(puri.Scheme.Len) || uri[int(puri.User.Offs)-1] == '@') && tailOK(uri, puri, puri.User, int(puri.User.Offs), n)
+//@   ensures[C14] "error-offset": err != 0 ==> 0 <= n && n <= len(uri)
+//@   ensures[C10] "port-exact": err == 0 ==> portExact(uri, puri)
+//@   ensures err == 0 && (puri.URIType != TELuri || puri.Pass.Offs == 0) ==> uriOK(puri)
